@@ -15,6 +15,9 @@ def oracle(p):
     bad = []
     spec_conn = 65535
     valid = True
+    # per-stream window of the peer, from the wire alone: a stream starts at the peer's INITIAL_WINDOW_SIZE in force when it is
+    # created and every later change is added to it, so at any time it is  IWS(now) + WINDOW_UPDATEs(sid) - DATA(sid)
+    iws, wu, sent = 65535, {}, {}
     frames = _conn.new_frames(p)
     prev = None
     for i, (op, parts) in enumerate(zip(p['ops'], p['parts'])):
@@ -26,6 +29,11 @@ def oracle(p):
                     bad.append({'rule': 'DATA exceeds the connection window computed from the wire history', 'step': i,
                                 'detail': {'fc': fc, 'window': spec_conn}})
                 spec_conn -= fc
+                sw_wire = iws + wu.get(fr[1], 0) - sent.get(fr[1], 0)
+                if valid and fc > sw_wire and fc > 0:
+                    bad.append({'rule': 'DATA exceeds the stream window computed from the wire history (INITIAL_WINDOW_SIZE + WINDOW_UPDATEs - DATA sent)',
+                                'step': i, 'detail': {'fc': fc, 'stream': fr[1], 'window': sw_wire}})
+                sent[fr[1]] = sent.get(fr[1], 0) + fc
                 if prev is not None:
                     sw = {s[0]: s[1] for s in prev[9]}.get(fr[1])
                     if sw is not None and fc > sw and fc > 0:
@@ -35,6 +43,12 @@ def oracle(p):
                 for e in op[1]:
                     if e[0][0] == 'WindowUpdate' and e[0][1] == 0:
                         spec_conn += e[0][2]
+                    elif e[0][0] == 'WindowUpdate':
+                        wu[e[0][1]] = wu.get(e[0][1], 0) + e[0][2]
+                    elif e[0][0] == 'Settings' and not e[0][1]:
+                        for k, v in e[0][2]:
+                            if k == 4:
+                                iws = v
             else:
                 valid = False    # partially processed batch: the wire-level sum is no longer known exactly
         if valid and parts[6][0] != spec_conn and op[0] != 'Receive':
